@@ -30,7 +30,7 @@ for p in props:
         m["checks"].append({
          "property_id": p,
          "quick_cmd": f"/verif/bin/govc check --property {p} --tier quick",
-         "thorough_cmd": f"/verif/bin/govc check --property {p} --tier thorough",
+         "thorough_cmd": f"/verif/tools/thorough.sh {p}",
          "evidence_file": f"/verif/evidence/{p}.json",
          "replay_cmd_template": "cat {path}",
          "engine": "govc",
